@@ -402,13 +402,37 @@ func genProgram(r *lib.Rng, maxStats int) (*luaGen, []string) {
 var mutKeywords = []string{"end", "then", "do", "local", "function", "return", "=", "(", ")", ",", "in", "until", "}", "{", "]", "[", "..", "elseif"}
 
 // mutate applies one single-token mutation; returns the description.
+var mutPunct = []string{".", ":", ",", ";", "=", "..", "::", "...", "==", "~", "#"}
+var mutPunctSet = func() map[string]bool {
+	m := map[string]bool{}
+	for _, p := range mutPunct {
+		m[p] = true
+	}
+	return m
+}()
+
 func mutateTokens(r *lib.Rng, toks []string) ([]string, string) {
 	if len(toks) == 0 {
 		return []string{mutKeywords[r.Intn(len(mutKeywords))]}, "insert-into-empty"
 	}
 	out := append([]string(nil), toks...)
 	i := r.Intn(len(out))
-	switch r.Intn(4) {
+	switch r.Intn(5) {
+	case 4:
+		// punctuation substitution: the nearest punctuation token becomes another one ('.' <-> ':' …)
+		for k := 0; k < len(out); k++ {
+			j := (i + k) % len(out)
+			if mutPunctSet[out[j]] {
+				q := mutPunct[r.Intn(len(mutPunct))]
+				for q == out[j] {
+					q = mutPunct[r.Intn(len(mutPunct))]
+				}
+				old := out[j]
+				out[j] = q
+				return out, fmt.Sprintf("punct@%d(%s->%s)", j, old, q)
+			}
+		}
+		return append(out[:i], out[i+1:]...), fmt.Sprintf("delete@%d(%s)", i, toks[i])
 	case 0:
 		return append(out[:i], out[i+1:]...), fmt.Sprintf("delete@%d(%s)", i, toks[i])
 	case 1:
